@@ -66,6 +66,10 @@ func TestC09_Fsmx(t *testing.T) {
 					k := rapid.IntRange(1, 3).Draw(t, "nRacing")
 					for i := 0; i < k; i++ {
 						kinds := append([]string{"NewVoucher", "DataReceived"}, noticeKinds...)
+						if spec.SelfInitiator && (last.Kind == "Cancel" || last.Kind == "Error") {
+							// the local transport or the responder may finish just as the channel is being closed
+							kinds = append(kinds, "FinishTransfer", "ResponderCompletes", "ResponderBeginsFinalization")
+						}
 						a := fill(t, Act{Kind: rapid.SampledFrom(kinds).Draw(t, "raceKind")}, &nextIdx)
 						raced = append(raced, a.Kind)
 						_ = h.inject(a)
